@@ -16,12 +16,12 @@ cp $demos "$wt"/
 tests=$(grep -ho "^func Test[A-Za-z0-9_]*" $demos | sed 's/func //' | paste -sd'|')
 cd "$wt"
 echo "== demo without the change ($tests)"
-go test -vet=off -count=1 -timeout 10m -run "^($tests)\$" . > /tmp/sv-$name-without.log 2>&1; r_without=$?
+go test ${DEMO_FLAGS:-} -vet=off -count=1 -timeout 10m -run "^($tests)\$" . > /tmp/sv-$name-without.log 2>&1; r_without=$?
 tail -3 /tmp/sv-$name-without.log
 git apply "$out/patch.diff" || { echo "patch does not apply"; exit 3; }
 go build ./... || { echo "does not build"; exit 3; }
 echo "== demo with the change"
-go test -vet=off -count=1 -timeout 10m -run "^($tests)\$" . > /tmp/sv-$name-with.log 2>&1; r_with=$?
+go test ${DEMO_FLAGS:-} -vet=off -count=1 -timeout 10m -run "^($tests)\$" . > /tmp/sv-$name-with.log 2>&1; r_with=$?
 tail -5 /tmp/sv-$name-with.log
 rm -f $(for d in $demos; do echo "$wt/$(basename $d)"; done)
 r_suite=skipped
